@@ -296,7 +296,26 @@ class MethodMixin:
                     self.write_back(cell)
                     return v
                 self.symbolise(cell)
-            if args:
+            if args and args[0] == 0 and isinstance(args[0], int):
+                # pop(0): the first member; the rest moves down by one (set view: the members of the rest are members of the list)
+                ty = cell.sym.ty
+                s = sort_of(ty)
+                t = cell.sym.t
+                ctx.may_raise(s.len(t) <= 0, "IndexError", "pop from empty list")
+                v = ctx.wrap(z3.Select(s.data(t), 0), ty.args[0])
+                r = z3.Const(ctx.fresh_name("rest"), s)
+                k = z3.Int(ctx.fresh_name("k"))
+                ctx.assume(s.len(r) == s.len(t) - 1)
+                ctx.assume(z3.ForAll([k], z3.Implies(z3.And(0 <= k, k < s.len(r)), z3.Select(s.data(r), k) == z3.Select(s.data(t), k + 1)),
+                                     patterns=[z3.Select(s.data(r), k)]))
+                if ty.args[0].name in ("Ref", "Int", "Str"):
+                    from .core import mem_fn
+                    e = z3.Const(ctx.fresh_name("e"), sort_of(ty.args[0]))
+                    ctx.assume(z3.ForAll([e], z3.Implies(mem_fn(ty)(r, e), mem_fn(ty)(t, e)), patterns=[mem_fn(ty)(r, e)]))
+                cell.sym = SV(ty, r)
+                self.write_back(cell)
+                return v
+            if args and not (isinstance(args[0], int) and args[0] == -1):
                 raise Unsupported("pop(i) on symbolic list")
             ty = cell.sym.ty
             s = sort_of(ty)
